@@ -1,8 +1,9 @@
 SPECIFICATION Spec
 CONSTANT R = 1
-CONSTANT P2Origin = FALSE
+CONSTANT P2Origin = TRUE
 CONSTANT Impl = "v2"
 CONSTANT M1Order = "b2_x_n1"
+CONSTANT Slice = FALSE
 INVARIANT TypeOK
 INVARIANT UndefinedIffDegenerate
 INVARIANT LatticeOctant
